@@ -1,90 +1,188 @@
 (* ClientResend.v — every accepted trace passes the retransmission scanner (TraceScan.scan_resend),
-   including its window clause resend_before_new; C09_resend_before_new. *)
+   including its window clause resend_before_new. *)
 From Coq Require Import List NArith Bool Lia.
 From GM Require Import Base.Lts Codec.Packet Session.Ids Session.Store
   Client.Future Client.Client Client.ClientSpec Client.TraceScan
   Client.ClientTactics Client.AMap Client.PacketEq Client.ClientInvCtl Client.ClientInvOwed Client.ClientInvWf
-  Client.ClientInvHs Client.ClientInvSbs Client.ClientC10 Client.ClientInvRx Client.ClientKept Client.ClientTotal.
+  Client.ClientInvHs Client.ClientInvSbs Client.ClientPre.
 Import ListNotations.
 Open Scope N_scope.
 
-(* no call that passed the "connected" check is under way *)
-Definition noreq (s : st) : Prop :=
-  match k_api (k s) with
-  | Some (_, (AReqNext _ | AReqPut _ _ | AReqSave _ _ | AReqSend _ _ | AReqFin | ADiscSet | ADiscSend)) => False
-  | _ => True
-  end.
-Definition quiet (s : st) : Prop := k_cs (k s) <> StConnected /\ noreq s.
-(* the state has left initialized / connecting for good *)
-Definition hi (s : st) : Prop := (2 <=? cst_n (k_cs (k s))) = true.
-Definition late_after (s : st) : Prop :=
-  forall a, after_of (k_dpc (k s)) = Some a -> a = PExited \/ hi s.
-
-(* what the scanner's expectation says about the state *)
-Definition rrel (x : rexp) (s : st) : Prop :=
-  late_after s /\
+(* what the scanner's expectation says about the state: RInit — no packet processed yet on this Client;
+   RConn — an accepted CONNACK was the first packet: nobody is connected or past the "connected" check
+   (quiet), the processor is about to list the store (or has ignored the CONNACK because the client was
+   closed meanwhile); RDue l — l is what the processor still has to re-send *)
+Definition rr (x : rexp) (s : st) : Prop :=
   match x with
-  | RInit => quiet s /\ (k_ppc (k s) = PNone \/ (k_ppc (k s) = PRecv true /\ k_cs (k s) <> StInit))
-  | RConn => quiet s /\ k_cs (k s) <> StInit /\
-             ((exists sp, k_ppc (k s) = PConnack sp 0) \/ (exists sp, k_ppc (k s) = PAll sp /\ hi s) \/
-              (k_ppc (k s) = PRecv false /\ hi s))
-  | RDue l => quiet s /\ hi s /\ l <> [] /\ exists sp, k_ppc (k s) = PResend sp l
+  | RInit => k_ppc (k s) = PNone \/ k_ppc (k s) = PRecv true
+  | RConn => quiet s /\ ((exists sp, k_ppc (k s) = PConnack sp 0) \/ (exists sp, k_ppc (k s) = PAll sp) \/ k_ppc (k s) = PRecv false)
+  | RDue l => l <> [] /\ exists sp, k_ppc (k s) = PResend sp l
   | RNone =>
     match k_ppc (k s) with
     | PNone | PRecv true | PAll _ | PResend _ _ => False
-    | PInDie | PExited | PErrChk => True
-    | PConnack _ rc => hi s \/ rc <> 0
-    | _ => hi s
+    | PConnack _ rc => rc = 0 -> k_cs (k s) <> StConnecting
+    | _ => True
     end
   end.
 
-Lemma rrel_init : rrel RInit init.
+Ltac kill Hp :=
+  first [ discriminate Hp
+        | match type of Hp with ?c _ = ?c _ => injection Hp as ?; subst end
+        | match type of Hp with ?c _ _ = ?c _ _ => injection Hp as ? ?; subst end
+        | idtac ].
+
+Ltac leaves H Hp :=
+  step_cases H; kill Hp;
+  try match goal with E : cu_hidden _ _ = Some _ |- _ => pose proof (cu_hidden_cs _ _ _ E) as CS end;
+  use_cu; unfold_ctl; simp_proj; dgoal; simp_proj.
+
+Lemma sim_due s e s' l : InvCtl s -> InvOwed s -> InvPre s -> rr (RDue l) s -> step s e = Some s' ->
+  exists x', resend_step (RDue l) e = Some x' /\ rr x' s'.
 Proof.
-  split; [intros a Ha; discriminate Ha|]. split; [split; [discriminate|exact I]|left; reflexivity].
+  intros (_ & _ & C3 & _) (_ & O2) (_ & P & _) (Hl & sp & Hp) H.
+  unfold pre_pc in P. rewrite Hp in P. destruct P as [[Pc Pn] _]. unfold noreq in Pn.
+  destruct e.
+  all: leaves H Hp.
+  all: try match goal with Hn : ?l0 <> [] |- _ => is_var l0; destruct l0 as [|q rest]; [destruct (Hn eq_refl)|] end.
+  all: repeat match goal with E : k_api (k _) = _ |- _ => rewrite E in Pn end; try contradiction.
+  all: cbn [resend_step proc_obs tx_proc api_send in_window rdue andb].
+  all: try solve [eexists; split; [reflexivity|]; cbn [rr]; simp_proj; first [ left; reflexivity | split; [discriminate| eexists; eassumption] ]].
+  all: repeat match goal with
+       | E : negb ?a = false |- _ => destruct a; [clear E|discriminate E]
+       | E : packet_eqb _ _ = true |- _ => rewrite E
+       end; cbn [andb].
+  all: try solve [eexists; split; [reflexivity|]; cbn [rr]; simp_proj;
+                  first [ exact I | left; reflexivity | split; [discriminate| eexists; first [eassumption|reflexivity]] ]].
+  all: try solve [exfalso; pose proof (C3 eq_refl) as X; rewrite Hp in X; discriminate X].
+  all: try solve [eexists; split; [reflexivity|]; cbn [rr]; simp_proj;
+                  repeat match goal with F : k_ppc (k ?a) = k_ppc (k ?b) |- _ => rewrite F end;
+                  split; [discriminate| eexists; eassumption]].
+  all: idtac.
 Qed.
 
-Lemma rdue_cases l : (l = [] /\ rdue l = RNone) \/ (l <> [] /\ rdue l = RDue l).
-Proof. destruct l; [left; split; reflexivity|right; split; [discriminate|reflexivity]]. Qed.
-
-Ltac rr_fin C3 O2 L :=
-  first
-  [ exact I | reflexivity | assumption | discriminate | contradiction
-  | congruence
-  | match goal with H : False |- _ => destruct H end
-  | match goal with H : ?a <> ?a |- _ => destruct (H eq_refl) end
-  | match goal with H : _ = true -> _ = PInDie |- _ => discriminate (H eq_refl) end
-  | left; reflexivity | right; reflexivity
-  | left; assumption | right; assumption
-  | intros ? X; discriminate X
-  | eexists; reflexivity
-  | eexists; split; [reflexivity|assumption]
-  | eexists; split; reflexivity ].
-
-Lemma resend_sim s e s' x : InvCtl s -> InvOwed s -> rrel x s -> step s e = Some s' ->
-  exists x', resend_step x e = Some x' /\ rrel x' s'.
-Proof.
-  intros (_ & _ & C3 & _) (_ & O2) [L R] H.
-  destruct e.
-  all: step_leaves H.
-  all: simp_proj; clean_eqs.
-  all: repeat match goal with
-       | E : (?a =? ?b) = true |- _ => apply N.eqb_eq in E; subst
+Ltac norm :=
+  repeat match goal with
        | E : negb ?a = false |- _ => destruct a eqn:?; [clear E|discriminate E]
        | E : negb ?a = true |- _ => destruct a eqn:?; [discriminate E|clear E]
+       | E : packet_eqb _ _ = true |- _ => rewrite E
+       | E : (?a =? ?a) = false |- _ => rewrite N.eqb_refl in E; discriminate E
        | E : list_eqb packet_eqb _ _ = true |- _ => apply list_packet_eqb_eq in E; subst
-       end.
-  all: unfold rrel, quiet, noreq, hi, late_after in *.
-  all: destruct x as [| | |lx]; cbn [resend_step proc_obs tx_proc api_send in_window rdue andb] in *.
-  all: repeat match goal with
-       | E : k_ppc (k ?s) = _ |- _ => rewrite E in *
-       | E : k_api (k ?s) = _ |- _ => rewrite E in *
-       | E : k_cs (k ?s) = _ |- _ => rewrite E in *
-       | E : k_dpc (k ?s) = _ |- _ => rewrite E in *
-       end.
-  all: simp_proj; cbn [after_of cst_n N.leb N.compare] in *.
-  all: try solve [exfalso; intuition (try discriminate; try congruence)].
-  all: try solve [exfalso; destruct R as (_ & _ & [[? X]|[[? [X _]]|[X _]]]); discriminate X].
-  all: try solve [exfalso; destruct R as (_ & _ & _ & [? X]); discriminate X].
-  all: try solve [exfalso; destruct R as (_ & [X|[X _]]); discriminate X].
+       end; cbn [andb].
+
+Lemma sim_init s e s' : InvCtl s -> InvOwed s -> InvPre s -> rr RInit s -> step s e = Some s' ->
+  exists x', resend_step RInit e = Some x' /\ rr x' s'.
+Proof.
+  intros (_ & _ & C3 & _) (_ & O2) (_ & P & _) R H.
+  unfold pre_pc, quiet, noreq in P.
+  destruct R as [Hp|Hp]; rewrite Hp in P.
+  all: destruct e.
+  all: leaves H Hp.
+  all: cbn [resend_step proc_obs tx_proc api_send in_window rdue andb].
+  all: norm.
+  all: try solve [exfalso; pose proof (C3 eq_refl) as X; rewrite Hp in X; discriminate X].
+  all: try solve [eexists; split; [reflexivity|]; cbn [rr]; simp_proj;
+                  repeat match goal with F : k_ppc (k ?a) = k_ppc (k ?b) |- _ => rewrite F end;
+                  first [ exact I | left; first [reflexivity|assumption] | right; first [reflexivity|assumption] ]].
+  all: destruct (N.eqb_spec rc 0) as [->|Hrc]; eexists; (split; [reflexivity|]); cbn [rr]; simp_proj.
+  - split; [exact (proj1 P)|]. left. eexists. reflexivity.
+  - intros X. destruct (Hrc X).
+Qed.
+
+Lemma sim_conn s e s' : InvCtl s -> InvOwed s -> InvPre s -> rr RConn s -> step s e = Some s' ->
+  exists x', resend_step RConn e = Some x' /\ rr x' s'.
+Proof.
+  intros (_ & _ & C3 & _) (_ & O2) (_ & P & _) [[Qc Qn] R] H.
+  unfold pre_pc, quiet, noreq, hi in P. unfold noreq in Qn.
+  destruct R as [[sp Hp]|[[sp Hp]|Hp]]; rewrite Hp in P.
+  all: destruct e.
+  all: leaves H Hp.
+  all: repeat match goal with E : k_api (k _) = _ |- _ => rewrite E in Qn end; try contradiction.
+  all: cbn [resend_step proc_obs tx_proc api_send in_window rdue andb].
+  all: norm.
+  all: try solve [exfalso; pose proof (C3 eq_refl) as X; rewrite Hp in X; discriminate X].
+  all: try solve [eexists; split; [reflexivity|]; cbn [rr]; unfold quiet, noreq; simp_proj;
+                  repeat match goal with F : k_ppc (k ?a) = k_ppc (k ?b) |- _ => rewrite F end;
+                  repeat match goal with E : k_api (k _) = _ |- _ => rewrite E in * end;
+                  first [ exact I | left; first [reflexivity|assumption] | right; first [reflexivity|assumption]
+                        | split; [split; first [assumption|discriminate|exact I]|];
+                          first [ left; eexists; first [eassumption|reflexivity]
+                                | right; left; eexists; first [eassumption|reflexivity]
+                                | right; right; first [eassumption|reflexivity] ] ]].
+  all: try solve [exfalso; unfold is_connected in *; cbn [k set_k k_cs k_set_pending] in *;
+                  destruct (k_cs (k s)); try discriminate; congruence].
+  all: try solve [eexists; split; [reflexivity|]; cbn [rr]; split; [discriminate|eexists; reflexivity]].
+  all: try solve [eexists; split; [reflexivity|]; cbn [rr]; unfold quiet, noreq; simp_proj;
+                  repeat match goal with
+                         | F : k_ppc (k ?a) = k_ppc (k ?b) |- _ => rewrite F
+                         | F : k_api (k ?a) = _ |- _ => rewrite F
+                         end;
+                  (split; [split; [destruct CS as [CS|CS]; rewrite CS; first [assumption|discriminate]|first [exact I|assumption]]|]);
+                  first [ left; eexists; first [eassumption|reflexivity]
+                        | right; left; eexists; first [eassumption|reflexivity]
+                        | right; right; first [eassumption|reflexivity] ]].
   all: idtac.
-Admitted.
+Qed.
+
+Lemma sim_none s e s' : InvCtl s -> InvOwed s -> InvPre s -> rr RNone s -> step s e = Some s' ->
+  exists x', resend_step RNone e = Some x' /\ rr x' s'.
+Proof.
+  intros (_ & _ & C3 & _) (_ & O2) (_ & P & K & _) R H.
+  unfold pre_pc, quiet, noreq, hi in P. unfold conn_pc in K. cbn [rr] in R. pose proof I as I0.
+  destruct e.
+  all: leaves H I0.
+  all: try contradiction.
+  all: cbn [resend_step proc_obs tx_proc api_send in_window rdue andb].
+  all: norm.
+  all: try solve [eexists; split; [reflexivity|]; cbn [rr]; simp_proj;
+                  repeat match goal with F : k_ppc (k ?a) = k_ppc (k ?b) |- _ => rewrite F end;
+                  first [ exact I | exact R | assumption
+                        | intros _ X; rewrite X in P; discriminate P
+                        | specialize (O2 _ eq_refl);
+                          destruct after as [| [|] | | | | | | | | | | | | | | | | | | | |]; cbn [after_pc] in O2; try contradiction; exact I ]].
+  all: try solve [eexists; split; [reflexivity|]; left; reflexivity].
+  all: try solve [exfalso; first [rewrite K in R | rewrite (proj1 K) in R]; exact R].
+  all: try solve [eexists; split; [reflexivity|]; cbn [rr]; simp_proj;
+                  repeat match goal with F : k_ppc (k ?a) = k_ppc (k ?b) |- _ => rewrite F end;
+                  destruct (k_ppc (k s)) as [| [|] | | | | | | | | | | | | | | | | | | | |];
+                  first [ exact R | exact I | intros _; discriminate
+                        | intros X; destruct CS as [CS|CS]; rewrite CS; [exact (R X)|discriminate] ]].
+  all: try solve [exfalso;
+                  repeat match goal with E : (_ =? _) = true |- _ => apply N.eqb_eq in E end;
+                  subst; apply R; [reflexivity|]; destruct (k_cs (k s)); try discriminate; reflexivity].
+  all: idtac.
+Qed.
+
+Lemma resend_sim s e s' x : InvCtl s -> InvOwed s -> InvPre s -> rr x s -> step s e = Some s' ->
+  exists x', resend_step x e = Some x' /\ rr x' s'.
+Proof.
+  destruct x; [apply sim_init|apply sim_none|apply sim_conn|apply sim_due].
+Qed.
+
+Lemma scan_resend_gen es : forall pre s0 s x,
+  run step init pre = Some s0 -> rr x s0 -> run step s0 es = Some s ->
+  exists x', scan_resend x es = Some x' /\ rr x' s.
+Proof.
+  induction es as [|e es IH]; intros pre s0 s x Hpre Hx Hrun.
+  - cbn in Hrun. injection Hrun as <-. exists x. split; [reflexivity|exact Hx].
+  - cbn [run] in Hrun. destruct (step s0 e) as [s1|] eqn:Hs; [|discriminate Hrun].
+    assert (Hpre' : run step init (pre ++ [e]) = Some s1).
+    { rewrite run_app, Hpre. cbn [run]. rewrite Hs. reflexivity. }
+    pose proof (InvPre_reach _ _ Hpre) as HP.
+    destruct (InvB_reach _ _ Hpre) as [HC HO].
+    destruct (resend_sim _ _ _ _ HC HO HP Hx Hs) as (x1 & Hx1 & Hr1).
+    cbn [scan_resend]. rewrite Hx1. eapply IH; eassumption.
+Qed.
+
+(* every accepted trace passes the retransmission scanner (so: between an accepted first CONNACK and the
+   last re-send no API request is sent or saved); what it still expects at the end describes the final
+   state: RDue l only if the processor still has exactly l to re-send *)
+Theorem scan_resend_accepted es s : run step init es = Some s ->
+  exists x, scan_resend RInit es = Some x /\ rr x s.
+Proof. intros H. refine (scan_resend_gen es [] init s RInit eq_refl _ H). left. reflexivity. Qed.
+
+Corollary scan_resend_due es s l : run step init es = Some s -> scan_resend RInit es = Some (RDue l) ->
+  exists sp, k_ppc (k s) = PResend sp l.
+Proof.
+  intros H Hs. destruct (scan_resend_accepted _ _ H) as (x & Hx & R). rewrite Hs in Hx. injection Hx as <-.
+  exact (proj2 R).
+Qed.
